@@ -265,7 +265,7 @@ def known_findings(pid):
 # ------------------------------------------------------------------------------------------------
 
 class Engine:
-    def __init__(self, name, gen, features=(), sig=None, release=False, bin=None, compare=True, miri=0):
+    def __init__(self, name, gen, features=(), sig=None, release=False, bin=None, compare=True, miri=0, runner=None):
         self.name = name
         self.bin = bin or name
         self.gen = gen            # (tier, seed, params) -> list of scenario strings (without seq)
@@ -274,6 +274,7 @@ class Engine:
         self.release = release
         self.compare = compare
         self.miri = miri          # number of sampled scenario lines replayed under Miri (thorough tier / widened search)
+        self.runner = runner      # optional callable(lines) -> {seq: answer}: the implementation side is a compiler-verdict corpus
 
 
 class Prop:
@@ -299,10 +300,15 @@ def write_replay(pid, payload):
 def run_engine(eng, lines, tag):
     """returns dict with M mismatches and O failures for the scenario lines"""
     numbered = ["%d %s %s" % (k, eng.name, l) for k, l in enumerate(lines)]
-    rc_b, out_b = cargo_build([eng.bin], eng.features, eng.release)
-    if rc_b != 0:
-        return {"build_error": out_b[-2000:], "M": [], "O": [], "n": len(lines), "impl": {}, "model": {}}
-    rc_i, impl, err_i = run_lines(bin_path(eng.bin, eng.release), numbered)
+    if eng.runner is not None:
+        with Lock(".cargo.lock"):
+            impl = eng.runner(lines)
+        rc_i, err_i = 0, ""
+    else:
+        rc_b, out_b = cargo_build([eng.bin], eng.features, eng.release)
+        if rc_b != 0:
+            return {"build_error": out_b[-2000:], "M": [], "O": [], "n": len(lines), "impl": {}, "model": {}}
+        rc_i, impl, err_i = run_lines(bin_path(eng.bin, eng.release), numbered)
     model = {}
     if eng.compare:
         rc_m, model, err_m = run_lines(driver_path(), numbered)
